@@ -180,6 +180,19 @@ func vMsgSig(s *MsgSig) string {
 		s.ViaBSig, vNatList(hs), s.String())
 }
 
+// the verdict of a parse output "offs,[n,]verdict": an error = an ErrHdr… name other than the five "going on" ones
+func vIsErrOut(out string) bool {
+	v := out[strings.LastIndex(out, ",")+1:]
+	if !strings.HasPrefix(v, "ErrHdr") {
+		return false
+	}
+	switch v {
+	case "ErrHdrOk", "ErrHdrMoreBytes", "ErrHdrMoreValues", "ErrHdrEOH", "ErrHdrEmpty":
+		return false
+	}
+	return true
+}
+
 func vUnhex(s string) []byte {
 	if s == "-" {
 		return []byte{}
@@ -224,6 +237,7 @@ type vSess struct {
 	uri      PsipURI
 	buf      []byte
 	last     int
+	stop     bool // the last parse call returned an error verdict
 	out      []string
 }
 
@@ -471,16 +485,25 @@ func (s *vSess) step(op []string) (cont bool) {
 		if n > len(s.buf) {
 			n = len(s.buf)
 		}
+		// continuing an object after an error verdict (without Reset / Init) is outside every property's domain
+		if op[2] == "c" && s.stop {
+			s.out = append(s.out, "skipped-after-error")
+			break
+		}
 		b := s.buf[:n]
 		offs := s.last
 		if op[2] != "c" {
 			offs = vNat(op[2])
 		}
-		s.out = append(s.out, s.parse(b, offs, vNat(op[3])))
+		res := s.parse(b, offs, vNat(op[3]))
+		s.out = append(s.out, res)
+		s.stop = vIsErrOut(res)
 	case "R":
 		s.reset()
+		s.stop = false
 	case "I":
 		s.init()
+		s.stop = false
 	case "O":
 		s.out = append(s.out, s.obs())
 	case "G":
